@@ -51,10 +51,25 @@ class SafeStr(str):
         return SafeStr(str.__mod__(self, escape_text(str(other))))
 
 
+class Ticker:
+    """${tick()} - an expression whose value differs from evaluation to evaluation (1, 2, 3 ...): the same source text
+    written several times stands for several evaluations."""
+
+    def __init__(self):
+        self.n = 0
+
+    def __call__(self):
+        self.n += 1
+        return self.n
+
+    def reset(self):
+        self.n = 0
+
+
 def make_env():
     return dict(v='VAL<&>', n=7, d={'k': 'KV', 'b': '}', 'q': '"\''}, s='a"b', lst=[1, 2, 3],
                 t="it's", e='', z=0, fl=2.5, by=b'by<', nn=None, o=Obj(), h=Markup(),
-                uni='é日', dd={'x': {'y': 'deep}'}}, ss=SafeStr('<safe&>'))
+                uni='é日', dd={'x': {'y': 'deep}'}}, ss=SafeStr('<safe&>'), tick=Ticker())
 
 
 STR_BODIES = ['}', '{', '${', '$', '{}', '}}', '}${', 'a}b', '$$', ' ', 'x', '{0}', '${v}', '&', '<', '>',
